@@ -292,7 +292,7 @@ class StingyConfigurator(pg.All):
                 set(
                     itertools.chain(
                         filter(
-                            lambda x: type(x) == puan.variable,
+                            lambda x: isinstance(x, puan.variable),
                             flatten
                         ),
                     ),
